@@ -126,7 +126,7 @@ fn mutated_valid(rng: &mut Rng, d: &Driver, rep: &mut Report) -> Vec<u8> {
 
 pub fn run_case(case: u64, total_cases: u64, rng: &mut Rng, rep: &mut Report) {
     let sc = ConfigSnapshot { mode: if rng.chance(1, 2) { SchedulingMode::Classic } else { SchedulingMode::Enhanced }, ..ConfigSnapshot::default() };
-    let opts = StreamOpts { n_links: 1 + rng.usize_below(3), cfg: sc, ticks: 0, probing: rng.chance(1, 2), faults: Faults::None, retransmit_pct: 5, control_pct: 5, critical_windows: false, big_jumps: false, initial_windows: None, loss_permille: 0, stall_min_in_flight_small: false, echo_fuzz: false, rate_pct: 100 };
+    let opts = StreamOpts { n_links: 1 + rng.usize_below(3), cfg: sc, ticks: 0, probing: rng.chance(1, 2), faults: Faults::None, retransmit_pct: 5, control_pct: 5, critical_windows: false, big_jumps: false, initial_windows: None, loss_permille: 0, stall_min_in_flight_small: false, echo_fuzz: false, rate_pct: 100, short_sends: false };
     let mut d = Driver::new(opts, rng);
     d.capture_logs_always = true;
     let mut m = ReturnPathMon;
